@@ -1,1 +1,50 @@
-fn main(){}
+mod common;
+mod engine;
+mod props;
+mod refmodel;
+
+use engine::{Report, Tier};
+
+fn static_asserts() {
+    fn ss<T: Send + Sync>() {}
+    ss::<blsful::PublicKey<blsful::Bls12381G1Impl>>();
+    ss::<blsful::PublicKey<blsful::Bls12381G2Impl>>();
+    ss::<blsful::Signature<blsful::Bls12381G1Impl>>();
+    ss::<blsful::Signature<blsful::Bls12381G2Impl>>();
+    ss::<blsful::SecretKey<blsful::Bls12381G1Impl>>();
+    ss::<blsful::SecretKeyShare<blsful::Bls12381G2Impl>>();
+    ss::<blsful::inner_types::Scalar>();
+    ss::<blsful::inner_types::Gt>();
+}
+
+fn main() {
+    static_asserts();
+    let args: Vec<String> = std::env::args().collect();
+    if args.len() < 2 {
+        eprintln!("usage: blsful-mc <ID> [quick|thorough] | replay <file> | child <args..>");
+        std::process::exit(2);
+    }
+    engine::install_quiet_panic_hook();
+    let seed: u64 = std::env::var("VERIF_SEED").ok().and_then(|s| s.parse().ok()).unwrap_or(1);
+    if args[1] == "replay" {
+        std::process::exit(props::replay(&args[2]));
+    }
+    if args[1] == "child" {
+        std::process::exit(props::child(&args[2..]));
+    }
+    let tier = match args.get(2).map(|s| s.as_str()).or(std::env::var("VERIF_TIER").ok().as_deref()) {
+        Some("thorough") => Tier::Thorough,
+        _ => Tier::Quick,
+    };
+    let id = args[1].to_uppercase();
+    if let Err(e) = refmodel::self_test() {
+        eprintln!("MACHINERY-ERROR property={} reference self-test failed: {}", id, e);
+        std::process::exit(2);
+    }
+    let mut report = Report::new(&id, tier, seed);
+    if !props::run(&id, tier, seed, &mut report) {
+        eprintln!("unknown property {}", id);
+        std::process::exit(2);
+    }
+    std::process::exit(report.finish());
+}
